@@ -48,19 +48,34 @@ func (c *Check) MustPass(fn *ssa.Function, g Gate, targets []ssa.Instruction, wh
 }
 
 func (c *Check) mustPassFrom(fn *ssa.Function, from *ssa.BasicBlock, g Gate, targets []ssa.Instruction, what string) bool {
+	return c.MustPassAny(fn, from, g.Name, []Gate{g}, targets, what)
+}
+
+// MustPassAny: the pass edges of all listed gates together cut every path to the targets
+// (alternative checks on different branches, e.g. aggregate vs batch verification).
+// Every listed gate must be present.
+func (c *Check) MustPassAny(fn *ssa.Function, from *ssa.BasicBlock, name string, gs []Gate, targets []ssa.Instruction, what string) bool {
 	if fn == nil {
 		return false
 	}
-	key := shortName(fn) + "|" + g.Name
-	desc := fmt.Sprintf("every path to %s passes the success edge of gate [%s]", what, g.Name)
-	cut, sites := c.passEdges(fn, g)
-	min := g.Min
-	if min == 0 {
-		min = 1
-	}
-	if len(cut) < min {
-		c.Fail("gate", key, desc, fmt.Sprintf("gate not found: %d matching branches in %s (need >= %d): the check was removed or its condition changed", len(cut), shortName(fn), min), c.W.Pos(fn.Pos()))
-		return false
+	key := shortName(fn) + "|" + name
+	desc := fmt.Sprintf("every path to %s passes the success edge of gate [%s]", what, name)
+	cut := map[Edge]bool{}
+	var sites []string
+	for _, g := range gs {
+		gc, gsites := c.passEdges(fn, g)
+		min := g.Min
+		if min == 0 {
+			min = 1
+		}
+		if len(gc) < min {
+			c.Fail("gate", key, desc, fmt.Sprintf("gate [%s] not found: %d matching branches in %s (need >= %d): the check was removed or its condition changed", g.Name, len(gc), shortName(fn), min), c.W.Pos(fn.Pos()))
+			return false
+		}
+		for e := range gc {
+			cut[e] = true
+		}
+		sites = append(sites, gsites...)
 	}
 	if len(targets) == 0 {
 		c.Fail("gate", key, desc, "no target (accept point / effect) located in "+shortName(fn), c.W.Pos(fn.Pos()))
@@ -181,6 +196,16 @@ func (c *Check) RangeLoop(fn *ssa.Function, name string, over VM) *Loop {
 			lp.Blocks = naturalLoop(fn, b)
 			found = append(found, lp)
 		}
+	}
+	if strings.Contains(name, "#") {
+		// "name#k/n": k-th of exactly n loops over the operand, in block order
+		var k, n int
+		fmt.Sscanf(name[strings.Index(name, "#"):], "#%d/%d", &k, &n)
+		if len(found) == n && k >= 1 && k <= n {
+			return found[k-1]
+		}
+		c.Undecided("anchor", shortName(fn)+"|loop:"+name, fmt.Sprintf("exactly %d range loops over the named operand", n), fmt.Sprintf("found %d", len(found)), c.W.Pos(fn.Pos()))
+		return nil
 	}
 	if len(found) != 1 {
 		c.Undecided("anchor", shortName(fn)+"|loop:"+name, "exactly one range loop over the named operand", fmt.Sprintf("found %d", len(found)), c.W.Pos(fn.Pos()))
@@ -371,5 +396,96 @@ func (c *Check) LoopEffect(fn *ssa.Function, lp *Loop, pred func(ssa.Instruction
 		return false
 	}
 	c.OK("loopeffect", key, desc, sites...)
+	return true
+}
+
+// ForOrRangeLoopWithCall finds the unique loop whose body contains a call to callee.
+func (c *Check) ForOrRangeLoopWithCall(fn *ssa.Function, name, callee string) *Loop {
+	if fn == nil {
+		return nil
+	}
+	var found []*Loop
+	for _, b := range fn.Blocks {
+		if !(strings.Contains(b.Comment, ".loop")) || len(b.Instrs) == 0 {
+			continue
+		}
+		if _, ok := b.Instrs[len(b.Instrs)-1].(*ssa.If); !ok {
+			continue
+		}
+		blocks := naturalLoop(fn, b)
+		has := false
+		for bi := range blocks {
+			for _, ins := range fn.Blocks[bi].Instrs {
+				if ci, ok := ins.(ssa.CallInstruction); ok && nameMatch(calleeName(ci.Common()), callee) {
+					has = true
+				}
+			}
+		}
+		if has {
+			found = append(found, &Loop{Name: name, Header: b, Body: b.Succs[0], Blocks: blocks})
+		}
+	}
+	// innermost: smallest block set
+	if len(found) == 0 {
+		c.Undecided("anchor", shortName(fn)+"|loop:"+name, "a loop containing a call to "+callee, "found none", c.W.Pos(fn.Pos()))
+		return nil
+	}
+	best := found[0]
+	for _, l := range found[1:] {
+		if len(l.Blocks) < len(best.Blocks) {
+			best = l
+		}
+	}
+	return best
+}
+
+// WhoCalls: the set of module functions containing a static call (or closure/defer/go)
+// to target must be a subset of allowed; at least one caller must exist.
+func (c *Check) WhoCalls(target string, allowed []string, why string) bool {
+	al := map[string]bool{}
+	for _, a := range allowed {
+		al[a] = true
+	}
+	var bad, sites []string
+	n := 0
+	for _, fn := range c.W.ModuleFuncs() {
+		for _, ci := range findCalls(fn, target) {
+			n++
+			sites = append(sites, instrPos(c.W, ci))
+			if !al[shortName(fn)] {
+				bad = append(bad, shortName(fn)+" at "+instrPos(c.W, ci))
+			}
+		}
+		// function value references (method values / passing as callback)
+		eachInstr(fn, func(b *ssa.BasicBlock, ins ssa.Instruction) {
+			for _, op := range ins.Operands(nil) {
+				if f, ok := (*op).(*ssa.Function); ok && shortName(f) == target {
+					if ci, isCall := ins.(ssa.CallInstruction); isCall && ci.Common().Value == *op {
+						return
+					}
+					n++
+					if !al[shortName(fn)] {
+						bad = append(bad, shortName(fn)+" takes the function value at "+instrPos(c.W, ins))
+					}
+				}
+			}
+		})
+	}
+	c.Sites += len(c.W.ModuleFuncs())
+	key := target
+	desc := "callers of " + target + " are within {" + strings.Join(allowed, ", ") + "}: " + why
+	if c.W.Fn(target) == nil {
+		c.Undecided("whocalls", key, desc, "target function not found")
+		return false
+	}
+	if n == 0 {
+		c.Fail("whocalls", key, desc, "no caller found at all (rule would be vacuous)")
+		return false
+	}
+	if len(bad) > 0 {
+		c.Fail("whocalls", key, desc, "unexpected callers: "+strings.Join(bad, "; "), sites...)
+		return false
+	}
+	c.OK("whocalls", key, desc, sites...)
 	return true
 }
